@@ -5,6 +5,7 @@ package taintfx
 import (
 	"errors"
 
+	"github.com/itchio/lake/tlc"
 	"github.com/itchio/wharf/pwr"
 	"github.com/itchio/wharf/wire"
 	"github.com/itchio/wharf/wsync"
@@ -298,4 +299,29 @@ func BadBoolHelperOneSided(r *wire.ReadContext, files []string) (string, error) 
 		return "", errors.New("out of range")
 	}
 	return files[op.FileIndex], nil
+}
+
+// ---- allocations sized by a declared size (R10.alloc)
+
+// BadPreallocFromDeclaredSize sizes a slice by what the container says the build weighs.
+func BadPreallocFromDeclaredSize(c *tlc.Container) []wsync.BlockHash {
+	n := pwr.ComputeNumBlocks(c.Size) + int64(len(c.Files))
+	return make([]wsync.BlockHash, 0, n)
+}
+
+// GoodPreallocBounded bounds the hint first.
+func GoodPreallocBounded(c *tlc.Container) []wsync.BlockHash {
+	n := pwr.ComputeNumBlocks(c.Size) + int64(len(c.Files))
+	if n > 1<<16 {
+		n = 1 << 16
+	}
+	if n <= 1<<16 {
+		return make([]wsync.BlockHash, 0, n)
+	}
+	return nil
+}
+
+// GoodPreallocFromCount sizes by how many entries were actually decoded.
+func GoodPreallocFromCount(c *tlc.Container) []int64 {
+	return make([]int64, 0, len(c.Files))
 }
